@@ -38,8 +38,9 @@ META = {
                     "nothing is compared with NumPy's own stream"],
 }
 
-DISTS_GEN = ["random", "normal", "integers", "uniform", "poisson", "standard_normal", "exponential"]
-DISTS_RS = ["random_sample", "normal", "randint", "uniform", "poisson", "standard_normal", "exponential"]
+DISTS_GEN = ["random", "normal", "integers", "uniform", "poisson", "standard_normal", "exponential", "choice"]
+DISTS_RS = ["random_sample", "normal", "randint", "uniform", "poisson", "standard_normal", "exponential",
+            "choice"]
 
 
 def tier_cfg(tier):
@@ -49,29 +50,63 @@ def tier_cfg(tier):
 def setup(cfg):
     import dask.array  # noqa: F401
 
+    # Warm-up: lazily initialised paths inside dask/array/random.py (backend dispatch,
+    # cached module-level state) must run before any traced (line pre-empted) execution,
+    # otherwise the first traced run of a process sees more line events than a later one
+    # and a replay in a fresh interpreter would draw differently from the tape.
+    import dask.array as da
+
+    for api, dists in (("gen", DISTS_GEN), ("rs", DISTS_RS)):
+        for dist in dists:
+            build(api, dist, (3,), (2,), 1).compute(scheduler="sync")
+            build(api, dist, (3,), (2,), None).compute(scheduler="sync")
+    da.random.random((2,), chunks=1).compute(scheduler="sync")
+    da.random.default_rng(3).choice(5, size=(2,), replace=False, chunks=(2,)).compute(scheduler="sync")
+    da.random.RandomState(3).choice(da.from_array(__import__("numpy").arange(4), chunks=2), size=(2,),
+                                    replace=False, chunks=(2,)).compute(scheduler="sync")
+
 
 def chunks_for(tape, shape):
     return tuple(max(1, 1 + tape.draw(s, "chunk")) if s else 1 for s in shape)
 
 
-def build(api, dist, shape, chunks, seed):
+def build(api, dist, shape, chunks, seed, variant=0):
+    """variant != 0: the same seed/shape/chunks but another distribution parameter
+    (passed positionally or by keyword, as users do) -> must be a different array."""
+    import numpy as np
+
     import dask.array as da
 
     rng = da.random.default_rng(seed) if api == "gen" else da.random.RandomState(seed)
     f = getattr(rng, dist)
     if dist in ("integers", "randint"):
-        return f(0, 1000, size=shape, chunks=chunks)
+        if variant == 1:
+            return f(0, high=500, size=shape, chunks=chunks)
+        if variant == 2:
+            return f(0, 1000, size=shape, chunks=chunks, dtype=np.int32)
+        return f(0, high=1000, size=shape, chunks=chunks)
     if dist == "poisson":
-        return f(3.5, size=shape, chunks=chunks)
+        return f(3.5 if not variant else 9.0, size=shape, chunks=chunks)
     if dist == "normal":
-        return f(1.0, 2.0, size=shape, chunks=chunks)
+        if variant == 2:
+            return f(loc=1.0, scale=5.0, size=shape, chunks=chunks)
+        return f(1.0 if not variant else 3.0, 2.0, size=shape, chunks=chunks)
     if dist == "uniform":
-        return f(-1.0, 1.0, size=shape, chunks=chunks)
+        if variant == 2:
+            return f(low=-1.0, high=4.0, size=shape, chunks=chunks)
+        return f(-1.0, 1.0 if not variant else 2.0, size=shape, chunks=chunks)
     if dist == "exponential":
-        return f(2.0, size=shape, chunks=chunks)
-    if dist in ("random", "random_sample"):
+        return f(2.0 if not variant else 0.5, size=shape, chunks=chunks)
+    if dist == "random":
+        return f(shape, chunks=chunks, dtype=np.float32) if variant else f(shape, chunks=chunks)
+    if dist == "random_sample":
         return f(shape, chunks=chunks)
+    if dist == "choice":   # with replacement: multi-block output is allowed
+        return f(50, size=shape, replace=True, chunks=chunks)
     return f(size=shape, chunks=chunks)
+
+
+HAS_VARIANT = {"integers", "randint", "poisson", "normal", "uniform", "exponential", "random"}
 
 
 FRESH_SRC = r"""
@@ -107,7 +142,44 @@ def run_one(tape, cfg):
     out.probe({"seeded": "seeded", "unseeded_pair": "unseeded_pair", "choice": "choice_noreplace"}[mode])
     digests, sims = [], []
 
+    e2 = {"runs": 0, "parallel": 0}
+
+    def compute_threads(x):
+        """E2: block tasks on baton-passed worker threads, pre-empted at lines of
+        dask/array/random.py (state shared between concurrently running blocks shows here)."""
+        import dask.threaded
+        from sim.simthreads import SimThreadPool, SimThreads
+
+        sched = SimThreads(tape, policy=tape.choice(SimThreads.POLICIES, "tpolicy"), step_cap=200000,
+                           trace_files=("dask/array/random.py",), trace_den=(3, 6, 12)[tape.draw(3, "tden")])
+        box = {}
+        try:
+            with sched:
+                pool = SimThreadPool(sched, 2 + tape.draw(3, "tnw"))
+
+                def simget(dsk, keys, **kw):
+                    return dask.threaded.get(dsk, keys, pool=pool, **kw)
+
+                def client():
+                    box["v"] = dask.compute(*x, scheduler=simget) if isinstance(x, tuple) \
+                        else x.compute(scheduler=simget)
+
+                st = sched.spawn(client, "client")
+                res = sched.run()
+                if st.exc is not None:
+                    raise st.exc
+                if res != "ok":
+                    raise RuntimeError(f"simulated threads: {res} {sched.deadlock}")
+        finally:
+            dask.threaded.pools.clear()
+        digests.append(sched.digest())
+        e2["runs"] += 1
+        e2["parallel"] += sched.probes.get("parallel_items", 0)
+        return box["v"]
+
     def compute(x, run=None):
+        if run is None and tape.draw(4, "engine") == 3:
+            return compute_threads(x)
         r = run or sr.SimRun(tape)
         with r:
             v = dask.compute(*x, scheduler=r.get) if isinstance(x, tuple) else x.compute(scheduler=r.get)
@@ -132,9 +204,22 @@ def run_one(tape, cfg):
                 for nm, v in (("second build", v2), ("recomputation", v3), ("sync scheduler", v4)):
                     if not same(v1, v):
                         out.violate("seeded_values_differ",
-                                    f"{wl}: {nm} differs from the first computation "
-                                    f"({sims[0].describe()} vs {nm})")
+                                    f"{wl}: {nm} differs from the first computation")
                         break
+                if out.status != "violation" and dist in HAS_VARIANT and tape.chance(1, 2, "sibling"):
+                    # same seed, another distribution parameter: a different array, which must keep
+                    # its own values when computed together with the first one
+                    variant = 1 + tape.draw(2, "variant")
+                    sib = build(api, dist, shape, chunks, seed, variant=variant)
+                    wl["sibling_variant"] = variant
+                    out.probe("seeded_sibling")
+                    solo = sib.compute(scheduler="sync")
+                    t1, t2 = compute((a1, sib))
+                    if not same(t1, v1) or not same(t2, solo):
+                        out.violate("together_differs_from_alone",
+                                    f"{wl}: the array and a same-seed array with another parameter, computed "
+                                    f"together, differ from their solo computations (names {a1.name} / "
+                                    f"{sib.name})")
                 if out.status != "violation" and tape.draw(cfg["fresh_den"], "fresh") == 0:
                     from sim import pin
 
